@@ -60,6 +60,7 @@ def _build(seed: int) -> dict:
     from django_components.component_registry import registry
 
     boot.ID_SEAM.reset(start=(seed % 997) * 16)
+    # (render ids come from the seam's real alphabet [0-9a-zA-Z]: the placeholders' id attributes carry them)
     letter = "abcdfgkmnq"[seed % 10]  # symmetric representative of the plain text token
 
     def mk(name, **attrs):
